@@ -162,7 +162,7 @@ def run(ctx):
         raws.append((ib, cfg, raw))
     bugs = ["NoClearNewTable", "NoRestoreRecursive"] if q else \
            ["NoClearNewTable", "NoRestoreRecursive", "StaleBitsOnRemap", "NoFlushOnUnmap", "NoFlushOnMap", "RegionCountUnrounded",
-            "UnmapHugeGuardHoisted"]
+            "UnmapHugeGuardHoisted", "LeafForcedPresent"]
     for b in bugs:
         ctx.expect_model_violation(d, "MCPageTables", "MCPageTablesBug_" + b, timeout=300, workers=4)
 
